@@ -95,6 +95,8 @@ FUNCS = {
     "strnterminate_s": ("_strnterminate_s_chk", "n", "pnn", 1),
     "wcsset_s":      ("_wcsset_s_chk", "e", "pnnn", 4),
     "wcsnset_s":     ("_wcsnset_s_chk", "e", "pnnnn", 4),
+    "wcslwr_s":      ("_wcslwr_s_chk", "e", "pnn", 4),
+    "wcsupr_s":      ("_wcsupr_s_chk", "e", "pnn", 4),
     # F5 tokenizers (dmaxp and ptr are in-out)
     "strtok_s":      ("_strtok_s_chk", "p", "pNpQn", 1),
     "wcstok_s":      ("_wcstok_s_chk", "p", "pNpQn", 4),
